@@ -191,13 +191,12 @@ ElemAttribute::startElement(StylesheetExecutionContext& executionContext) const
                     executionContext.getResultPrefixForNamespace(attrNameSpace);
 
                 // If there is already a prefix for the namespace, and it's length
-                // is not 0, and there is no prefix on the attribute name, or
-                // it's equal to the prefix on the attribute, then go ahead
-                // and use that prefix.
+                // is not 0, then go ahead and use that prefix, whatever the prefix
+                // on the attribute name is.  Declaring a second prefix for the
+                // namespace would allow two attributes with the same expanded
+                // name on the element.
                 if(prefix != 0 &&
-                   prefix->empty() == false &&
-                   (indexOfNSSep == origAttrNameLength ||
-                    equals(prefix->c_str(), attrName.c_str(), indexOfNSSep) == true))
+                   prefix->empty() == false)
                 {
                     if(indexOfNSSep < origAttrNameLength)
                     {
@@ -332,7 +331,20 @@ ElemAttribute::startElement(StylesheetExecutionContext& executionContext) const
                             // used, let's change the prefix of the attribute.
                             nsprefix.clear();
 
-                            executionContext.getUniqueNamespaceValue(nsprefix);
+                            // Use a prefix that's already bound to the namespace,
+                            // if there is one, so that another attribute with the
+                            // same expanded name is replaced, not duplicated.
+                            const XalanDOMString* const     theExistingPrefix =
+                                executionContext.getResultPrefixForNamespace(attrNameSpace);
+
+                            if (theExistingPrefix != 0 && theExistingPrefix->empty() == false)
+                            {
+                                nsprefix.assign(*theExistingPrefix);
+                            }
+                            else
+                            {
+                                executionContext.getUniqueNamespaceValue(nsprefix);
+                            }
 
                             // Fix the name by removing the original prefix and
                             // inserting the new one.
@@ -639,7 +651,20 @@ ElemAttribute::execute(StylesheetExecutionContext&  executionContext) const
                             // used, let's change the prefix of the attribute.
                             nsprefix.clear();
 
-                            executionContext.getUniqueNamespaceValue(nsprefix);
+                            // Use a prefix that's already bound to the namespace,
+                            // if there is one, so that another attribute with the
+                            // same expanded name is replaced, not duplicated.
+                            const XalanDOMString* const     theExistingPrefix =
+                                executionContext.getResultPrefixForNamespace(attrNameSpace);
+
+                            if (theExistingPrefix != 0 && theExistingPrefix->empty() == false)
+                            {
+                                nsprefix.assign(*theExistingPrefix);
+                            }
+                            else
+                            {
+                                executionContext.getUniqueNamespaceValue(nsprefix);
+                            }
 
                             // Fix the name by removing the original prefix and
                             // inserting the new one.
